@@ -2,17 +2,27 @@ use crate::engine::runner::Report;
 
 pub mod c01;
 pub mod c02;
+pub mod c03;
+pub mod c04;
 pub mod c09;
 pub mod c14;
 pub mod c15;
+pub mod c16;
+pub mod c17;
+pub mod c18;
+pub mod c20;
 pub mod c30;
 pub mod c31;
 pub mod c32;
 pub mod c33;
 pub mod c35;
+pub mod c37;
+pub mod c38;
 pub mod c40;
 pub mod c41;
 pub mod c42;
+pub mod c43;
+pub mod c44;
 pub mod c45;
 
 pub type RunFn = fn(&mut Report);
@@ -20,17 +30,27 @@ pub type RunFn = fn(&mut Report);
 pub const REGISTRY: &[(&str, RunFn)] = &[
     ("C01", c01::run),
     ("C02", c02::run),
+    ("C03", c03::run),
+    ("C04", c04::run),
     ("C09", c09::run),
     ("C14", c14::run),
     ("C15", c15::run),
+    ("C16", c16::run),
+    ("C17", c17::run),
+    ("C18", c18::run),
+    ("C20", c20::run),
     ("C30", c30::run),
     ("C31", c31::run),
     ("C32", c32::run),
     ("C33", c33::run),
     ("C35", c35::run),
+    ("C37", c37::run),
+    ("C38", c38::run),
     ("C40", c40::run),
     ("C41", c41::run),
     ("C42", c42::run),
+    ("C43", c43::run),
+    ("C44", c44::run),
     ("C45", c45::run),
 ];
 
